@@ -702,6 +702,7 @@ pub fn run(tier: &str, seed: u64, out: &Path) -> i32 {
     }
     // ---- 6. Indent::to_string* / Shape::to_string_with_newline ------------------------------------
     shape_corr::indent_string_cases(&mut o, &mut rng, thorough);
+    crate::missed_corr::cases_c08(&mut o, &mut rng, thorough);
     // enumerated model-vs-code cases named by the theorems' counterexamples
     {
         let t = "' \n'\"'\" \n";
